@@ -6,6 +6,7 @@ import (
 	"sort"
 	"strconv"
 	"strings"
+	"time"
 
 	"github.com/krotik/ecal/interpreter"
 	"github.com/krotik/ecal/parser"
@@ -26,7 +27,12 @@ var c15Progs = []struct{ name, src string }{
 	{"error", "a := 1\nb := a + \"x\"\nc := 2"},
 	// 12 lines, so that line numbers that are decimal prefixes of one another
 	// exist (1 / 10 / 12); only used by the breakpoint-edit scenarios
+	// (appended after "long" so that the indices used by the selected configurations stay valid)
 	{"long", "a := 1\nb := 2\nc := 3\nd := 4\ne := 5\nf := 6\ng := 7\nh := 8\ni := 9\nj := 10\nk := 11\nl := a + k"},
+	// a call whose argument is another call (the debugger's step-in special case: stop before entering f)
+	{"argcall", "func g(x) {\n  return x * 2\n}\nfunc f(x) {\n  return x + 1\n}\nr := f(g(2))\nlog(r)"},
+	// a thread suspended inside nested block scopes of a function
+	{"blocks", "func f(x) {\n  if x > 0 {\n    let y := x\n    for i in [1] {\n      y := y + i\n    }\n    return y\n  }\n}\na := f(1)"},
 }
 
 func c15Lines(src string) int { return strings.Count(src, "\n") + 1 }
@@ -91,6 +97,7 @@ type c15Cfg struct {
 	breaks         []int    // lines with an active breakpoint
 	script         []string // commands for successive suspensions (then: resume)
 	stop           bool     // StopThreads at the first suspension instead of a continue
+	stopWait       int      // duration handed to StopThreads (0: do not wait for the threads to settle)
 	noBreakOnError bool
 	edits          []string // breakpoint commands issued after the initial ones
 }
@@ -209,7 +216,7 @@ func c15Run(c c15Cfg) *c15Result {
 					}
 				}
 				if c.stop {
-					dbg.StopThreads(0)
+					dbg.StopThreads(time.Duration(c.stopWait))
 					stopped = true
 				} else {
 					cmd := "resume"
@@ -392,6 +399,11 @@ func init() {
 						for _, p := range r.probs {
 							probs = append(probs, p+" ["+cfg.String()+"]")
 						}
+						// stop-all waiting for the threads to settle (StopThreads(d > 0))
+						cfgW := c15Cfg{prog: pi, breaks: bs, stop: true, stopWait: 1000}
+						for _, p := range c15Run(cfgW).probs {
+							probs = append(probs, p+" ["+cfgW.String()+" wait]")
+						}
 					}
 					vsched.Logf("configurations=%d", cfgs)
 				}
@@ -422,6 +434,9 @@ func init() {
 		{4, []int{2}, []string{"stepout"}, false, false},
 		{0, []int{2}, nil, true, false},
 		{1, []int{2}, nil, true, false},
+		{8, []int{7}, []string{"stepin", "stepout"}, false, false},
+		{8, []int{7}, []string{"stepin", "stepin"}, false, false},
+		{9, []int{5}, nil, false, false},
 	}
 	// the same resume-only configurations with break-on-error off: there every
 	// suspension episode needs exactly one continue, so the sequence of
